@@ -75,6 +75,17 @@ def run(case, ctx, rng):
             ctx.notes['unspecified-48-bucket-gate'] += 1
             return
         ctx.eq('tlsh==model', got, want, **det)
+        # the two-step forms of the same computation: update(data) then final with nothing more to add; final(data) alone
+        def two_step(last):
+            o = TLSH(b, w, c); o.update(d)
+            return None if o.final(last, force) is None else o.digest().lsh_code
+        def final_only():
+            o = TLSH(b, w, c)
+            return None if o.final(d, force) is None else o.digest().lsh_code
+        if n % 2 == 0 or n < 60:
+            ctx.eq('tlsh==model', call(two_step, b''), want, form="update(data); final(b'')", **det)
+            ctx.eq('tlsh==model', call(two_step, None), want, form='update(data); final(None)', **det)
+            ctx.eq('tlsh==model', call(final_only), want, form='final(data)', **det)
         if isinstance(got, bytes):
             ctx.eq('tlsh:length', len(got), c + 2 + b // 4, **det)
             # reload: same header fields and code, serializes back to the identical bytes
@@ -153,6 +164,13 @@ def run(case, ctx, rng):
                     det = dict(cfg=case['cfg'], hx=hx, hy=hy, lvalue=lv)
                     ok = (not is_exc(vals)) and all(isinstance(v, int) and not isinstance(v, bool) and v >= 0 for v in vals) and len(set(vals)) == 1 and (i != j or vals[0] == 0)
                     ctx.check('tlsh:distance-laws', ok, vals, 'one non-negative int for all argument forms and both orders%s' % (', 0 for identical digests' if i == j else ''), **det)
+                    # objects in their other states: finalised but not yet serialised, and re-loaded from a digest
+                    def other_states():
+                        fx = TLSH(b, w, c); fx.final(ds[i][0], True); fy = TLSH(b, w, c); fy.final(ds[j][0], True)
+                        rx = TLSH(b, w, c).from_hash(hx); ry = TLSH(b, w, c).from_hash(hy)
+                        return (distance(fx, fy, lv), distance(fy, fx, lv), distance(rx, ry, lv), distance(fx, ry, lv), distance(rx, hy, lv), distance(hx, fy, lv))
+                    v2 = call(other_states)
+                    ctx.check('tlsh:distance-laws', not is_exc(vals) and not is_exc(v2) and set(v2) == {vals[1]}, v2, vals if is_exc(vals) else vals[1], states='final() without digest(), from_hash()', **det)
                     if not is_exc(vals):
                         ctx.eq('tlsh:distance==model', vals[1], sh.tlsh_distance(hx, hy, c, lv), **det)
                         ctx.eq('tlsh:distance_to', call(lambda: ox.distance_to(oy)), call(lambda: distance(ox, oy)), **det)
